@@ -27,6 +27,12 @@ pub struct Parser<'a> {
     /// Offsets of `(` already found not to start an arrow function (so nested
     /// speculative parses are not repeated at every enclosing level).
     no_arrow_at: FxHashSet<usize>,
+    /// Links of loop-built chains made so far in the expression, statement or type being
+    /// parsed, and the largest such total among the constructs nested in it that are
+    /// already complete: their sum bounds how deep loops (rather than recursion) have made
+    /// the tree along any path, however the chains are distributed over nested constructs.
+    chain_links: usize,
+    nested_links: usize,
 }
 
 impl<'a> Parser<'a> {
@@ -41,6 +47,8 @@ impl<'a> Parser<'a> {
             last_member_abstract: false,
             stack_base: 0,
             no_arrow_at: FxHashSet::default(),
+            chain_links: 0,
+            nested_links: 0,
         }
     }
 
@@ -57,7 +65,37 @@ impl<'a> Parser<'a> {
     /// Longest operator / member / call chain built by a loop (`a + b + c + ...`,
     /// `a.b.c...`): such chains make a left-deep tree without any recursion in the parser,
     /// but every later traversal of the tree (compilation, its release) recurses over it.
-    const MAX_CHAIN: usize = 10_000;
+    /// The limit applies to the links accumulated along nested constructs as well
+    /// (`((x.a.a...).a.a...).a.a...` is as deep as one chain of the same total length).
+    /// Releasing a chain costs about 180 bytes of stack per link in an unoptimised build,
+    /// so 4000 links stay within the same budget as the recursive descent.
+    const MAX_CHAIN: usize = 4_000;
+
+    /// Count one more link of a loop-built chain.
+    fn chain_link(&mut self) -> Result<(), JsError> {
+        self.chain_links += 1;
+        if self.chain_links + self.nested_links > Self::MAX_CHAIN {
+            return Err(self.chain_too_long());
+        }
+        Ok(())
+    }
+
+    /// Parse one expression, statement or type as its own accounting scope for loop-built
+    /// chains: what it contributes to the enclosing construct is its total, and siblings
+    /// count by their maximum, not their sum.
+    fn chain_scope<T>(
+        &mut self,
+        parse: impl FnOnce(&mut Self) -> Result<T, JsError>,
+    ) -> Result<T, JsError> {
+        let (outer_links, outer_nested) = (self.chain_links, self.nested_links);
+        self.chain_links = 0;
+        self.nested_links = 0;
+        let result = parse(self);
+        let total = self.chain_links + self.nested_links;
+        self.chain_links = outer_links;
+        self.nested_links = outer_nested.max(total);
+        result
+    }
 
     fn chain_too_long(&self) -> JsError {
         JsError::syntax_error(
@@ -129,6 +167,10 @@ impl<'a> Parser<'a> {
     // ============ STATEMENTS ============
 
     fn parse_statement(&mut self) -> Result<Statement, JsError> {
+        self.chain_scope(Self::parse_statement_inner)
+    }
+
+    fn parse_statement_inner(&mut self) -> Result<Statement, JsError> {
         self.check_depth()?;
         // Check for decorators first - they can precede class declarations
         if self.check(&TokenKind::At) {
@@ -2333,6 +2375,10 @@ impl<'a> Parser<'a> {
     }
 
     fn parse_assignment_expression(&mut self) -> Result<Expression, JsError> {
+        self.chain_scope(Self::parse_assignment_expression_inner)
+    }
+
+    fn parse_assignment_expression_inner(&mut self) -> Result<Expression, JsError> {
         self.check_depth()?;
         // Check for yield expression
         if self.check(&TokenKind::Yield) {
@@ -2426,16 +2472,12 @@ impl<'a> Parser<'a> {
         self.check_depth()?;
         let start = self.current.span;
         let mut left = self.parse_unary_expression()?;
-        let mut chain = 0usize;
 
         while let Some((op, prec, is_logical)) = self.current_binary_op() {
             if prec < min_prec {
                 break;
             }
-            chain += 1;
-            if chain > Self::MAX_CHAIN {
-                return Err(self.chain_too_long());
-            }
+            self.chain_link()?;
 
             // Save the operator token kind before advancing (needed for logical op detection)
             let op_token_kind = self.current.kind.clone();
@@ -2653,13 +2695,9 @@ impl<'a> Parser<'a> {
         // Track if we've seen any optional chaining (?.) in this expression
         let mut in_optional_chain = false;
         let optional_chain_start = start;
-        let mut chain = 0usize;
 
         loop {
-            chain += 1;
-            if chain > Self::MAX_CHAIN {
-                return Err(self.chain_too_long());
-            }
+            self.chain_link()?;
             // Check for call with either ( or < (type arguments)
             if self.check(&TokenKind::LParen) || self.check(&TokenKind::Lt) {
                 // Try to parse as call with type arguments
@@ -2821,15 +2859,14 @@ impl<'a> Parser<'a> {
             });
         }
 
+        // the last turn of the loop above made no link
+        self.chain_links = self.chain_links.saturating_sub(1);
+
         // TypeScript type assertions: `e as T`, `e satisfies T`, chained (`e as any as T`)
-        let mut as_chain = 0usize;
         while self.check(&TokenKind::As)
             || (self.check_keyword("satisfies") && !self.lexer.had_newline_before())
         {
-            as_chain += 1;
-            if as_chain > Self::MAX_CHAIN {
-                return Err(self.chain_too_long());
-            }
+            self.chain_link()?;
             self.advance();
             // Handle "as const" - const assertion (TypeScript 3.4+)
             // This is a compile-time feature; at runtime we just return the value unchanged
@@ -2853,14 +2890,10 @@ impl<'a> Parser<'a> {
     fn parse_member_expression(&mut self) -> Result<Expression, JsError> {
         let start = self.current.span;
         let mut expr = self.parse_primary_expression()?;
-        let mut chain = 0usize;
 
         // Handle member access chain (.prop, [expr])
         loop {
-            chain += 1;
-            if chain > Self::MAX_CHAIN {
-                return Err(self.chain_too_long());
-            }
+            self.chain_link()?;
             if self.match_token(&TokenKind::Dot) {
                 if self.match_token(&TokenKind::Hash) {
                     let name = self.parse_private_identifier()?;
@@ -2904,6 +2937,8 @@ impl<'a> Parser<'a> {
                 break;
             }
         }
+        // the last turn of the loop made no link
+        self.chain_links = self.chain_links.saturating_sub(1);
 
         Ok(expr)
     }
@@ -3874,7 +3909,7 @@ impl<'a> Parser<'a> {
 
     fn parse_type_annotation(&mut self) -> Result<TypeAnnotation, JsError> {
         self.check_depth()?;
-        self.parse_conditional_type()
+        self.chain_scope(Self::parse_conditional_type)
     }
 
     /// Parse conditional type: T extends U ? X : Y
@@ -3947,12 +3982,8 @@ impl<'a> Parser<'a> {
         self.check_depth()?;
         let start = self.current.span;
         let mut ty = self.parse_primary_type_base()?;
-        let mut chain = 0usize;
         while self.check(&TokenKind::LBracket) {
-            chain += 1;
-            if chain > Self::MAX_CHAIN {
-                return Err(self.chain_too_long());
-            }
+            self.chain_link()?;
             self.advance();
             if self.match_token(&TokenKind::RBracket) {
                 ty = TypeAnnotation::Array(ArrayType {
